@@ -1,4 +1,5 @@
 import EpgVerif.Props.C20
+import EpgVerif.Tie.GuardSites
 open EpgVerif.Props.C20
 #print axioms anyNegative_iff
 #print axioms anyNegative_position
@@ -20,3 +21,4 @@ open EpgVerif.Props.C20
 #print axioms badSequence_iff
 #print axioms badSeqVars_iff
 #print axioms pulseTooLarge_iff
+#print axioms EpgVerif.Tie.GuardSites.guards_as_modelled
